@@ -192,8 +192,10 @@ def _type_name(t):
 
 
 def _addr(a, fam):
-    """() -> [] ; (ip, port) -> [symbol, port].  Any text form of the same
-    address is accepted: the symbol is recovered from the address's bytes."""
+    """() -> [] ; (ip, port) -> [symbol, port].  The textual IP is the C
+    library's presentation form (inet_ntop: RFC 5952, an IPv4-mapped address
+    in mixed notation); another spelling of the same bytes is reported as
+    such."""
     if a is None or a == "" or a == () or a == []:     # "empty"
         return []
     try:
@@ -208,6 +210,8 @@ def _addr(a, fam):
         b = socket.inet_pton(FAMS[fam], ip)
     except Exception:  # noqa: BLE001
         return ["<%r>" % (ip,), port]
+    if socket.inet_ntop(FAMS[fam], b) != ip:
+        return ["<%s spelt %r>" % (socket.inet_ntop(FAMS[fam], b), ip), port]
     for sym, sb in ADDRS.items():
         if sb == b:
             return [sym, port]
